@@ -744,9 +744,21 @@ func Run(r *common.Run) error {
 		}
 		return nil
 	}
+	r.Mark("case concurrent 0")
+	runConcurrent(r, 3, r.Pick(10, 40))
+	if r.Race() {
+		for k := 1; k <= 5; k++ {
+			r.Mark("case concurrent %d", k)
+			runConcurrent(r, 1+k, 30)
+		}
+	}
 	for n, c := range corpus {
 		r.Mark("case corpus %d", n)
 		runCase(r, parseAddrs(c.addrs), strings.Split(c.sched, ","), "corpus")
+	}
+	if r.Race() {
+		r.Notes = append(r.Notes, "race-detector run: concurrent scenario and corpus only")
+		return nil
 	}
 	nR := r.Pick(1200, 20000)
 	for n := 0; n < nR && len(r.Failures) < 80 && r.Hist["problem"] < 25; n++ {
